@@ -463,6 +463,9 @@ func ilCase(env *core.Env, idx int, prop string) *core.CaseResult {
 		}
 		orderDesc := fmt.Sprint(order)
 		res.Add("executions", 1)
+		if wide {
+			res.Add("executions_on_the_three_page_table", 1)
+		}
 		failed := false
 		sharedAccess := false
 		keyChangeSeen := false // some statement ran while another open transaction had an uncommitted change of an indexed column
